@@ -198,3 +198,73 @@ func TestKF_C07_SecondPillInBatchNeverCancelled(t *testing.T) {
 		t.Fatalf("first poison context done=%v, second done=%v; trace: %s", d1, d2, r)
 	}
 }
+
+// C12: after Unsubscribe for a PID, identified by address and id, that actor
+// receives no further events; subscribing the same PID twice does not
+// duplicate deliveries.
+func TestKF_C12_UnsubscribeByEqualPIDInDistinctObject(t *testing.T) {
+	e, _ := NewEngine(NewEngineConfig())
+	var mu sync.Mutex
+	got := 0
+	pid := e.SpawnFunc(func(c *Context) {
+		if _, ok := c.Message().(DeadLetterEvent); ok {
+			mu.Lock()
+			got++
+			mu.Unlock()
+		}
+	}, "kf-sub", WithID("1"))
+	same := NewPID(pid.Address, pid.ID) // equal by address and id, different object
+	e.Subscribe(pid)
+	e.Subscribe(same)
+	time.Sleep(50 * time.Millisecond)
+	e.Send(NewPID(LocalLookupAddr, "nobody/1"), "x") // one dead letter
+	time.Sleep(100 * time.Millisecond)
+	mu.Lock()
+	first := got
+	got = 0
+	mu.Unlock()
+	e.Unsubscribe(same)
+	e.Unsubscribe(NewPID(pid.Address, pid.ID))
+	time.Sleep(50 * time.Millisecond)
+	e.Send(NewPID(LocalLookupAddr, "nobody/2"), "y")
+	time.Sleep(100 * time.Millisecond)
+	mu.Lock()
+	second := got
+	mu.Unlock()
+	if first != 1 || second != 0 {
+		t.Fatalf("event delivered %d times after subscribing the same PID twice (want 1), %d times after unsubscribing it by value (want 0)", first, second)
+	}
+}
+
+// C09: a finite number of sends produces a finite number of events, also when
+// a subscriber has stopped without unsubscribing.
+func TestKF_C09_DeadSubscriberFeedbackLoop(t *testing.T) {
+	e, _ := NewEngine(NewEngineConfig())
+	var mu sync.Mutex
+	seen := 0
+	counter := e.SpawnFunc(func(c *Context) {
+		if _, ok := c.Message().(DeadLetterEvent); ok {
+			mu.Lock()
+			seen++
+			mu.Unlock()
+		}
+	}, "kf-counter", WithID("1"))
+	gone := e.SpawnFunc(func(c *Context) {}, "kf-gone", WithID("1"))
+	e.Subscribe(counter)
+	e.Subscribe(gone)
+	time.Sleep(50 * time.Millisecond)
+	<-e.Poison(gone).Done() // stops without unsubscribing
+	time.Sleep(50 * time.Millisecond)
+	mu.Lock()
+	seen = 0
+	mu.Unlock()
+	e.Send(NewPID(LocalLookupAddr, "nobody/1"), "x") // ONE undeliverable message
+	time.Sleep(200 * time.Millisecond)
+	mu.Lock()
+	n := seen
+	mu.Unlock()
+	e.Unsubscribe(gone) // stop the storm
+	if n > 50 {
+		t.Fatalf("one undeliverable message produced %d DeadLetterEvents within 200ms (and counting)", n)
+	}
+}
